@@ -17,9 +17,9 @@ CLAIMS = {
     "C03": ("runtime monitoring: read-budget hook (logical termination), online tiling/progress assertions on every run, empty-match acceptance monitor",
             "termination decided by a read budget in the read-trace hook; spans, gaps and end position asserted on every executed run", "5 C03"),
     "C04": ("runtime monitoring: span-boundary assertions before slicing on every run + UTF-8 language-inclusion monitor on accepted definitions",
-            "boundaries checked before slice()/remainder(); accepted str-mode patterns/subpatterns searched for matches along ill-formed byte paths", "5 C04"),
-    "C07": ("runtime monitoring: history monitor over (input, split) pairs and chunk schedules with a reference determinedness oracle",
-            "real partial lexer vs real one-shot lexer for all split points, eagerness/over-commitment decided on the reference over all continuations", "5 C07"),
+            "boundaries checked before slice()/remainder(); accepted str-mode patterns/subpatterns searched for matches along ill-formed byte paths; bump matrix on str sources (span invariant before slicing)", "5 C04, 12.6"),
+    "C07": ("runtime monitoring: history monitor over (input, split) pairs and chunk schedules with a reference determinedness oracle + per-state commit-condition monitor on hooked graph state (all inputs per definition) + callback-log prefix monitor for partial lexers",
+            "real partial lexer vs real one-shot lexer for all split points, eagerness/over-commitment decided on the reference over all continuations; L: graph state without transitions vs reference determinedness at every reachable buffer-end point", "5 C07, 12.7, 12.8"),
     "C08": ("runtime monitoring: acceptance monitor against exhaustive exploration of the reference product",
             "both directions of the iff, plus reported conflict groups, per generated definition", "5 C08"),
     "C09": ("runtime monitoring: assertion on hooked leaf priorities against two independent oracles (AST recursion, shortest match in characters)",
@@ -27,20 +27,20 @@ CLAIMS = {
     "C10": ("runtime monitoring: product check of the captured graph against hand-built literal / simple-case-fold automata + compiled lexers on case-toggled inputs",
             "literals over a hostile alphabet in token / ignore(case) / regex / skip forms", "5 C10"),
     "C11": ("runtime monitoring: product check of the captured graph against a reference built with an independent subpattern inliner",
-            "subpattern definitions of every shape; undefined/forward references must be rejected", "5 C11"),
+            "subpattern definitions of every shape; undefined/forward references must be rejected; acceptance compared in both directions with the written-out definition", "5 C11, 12.6"),
     "C12": ("runtime monitoring: twin-definition differential monitor (utf8 on/off) on compiled lexers + product check of both twins",
-            "same valid UTF-8 input through both twins; byte twin on ill-formed input against the reference", "5 C12"),
+            "same valid UTF-8 input through both twins; byte twin on ill-formed input against the reference; a fixed twin pair with bumping callbacks", "5 C12, 12.6"),
 }
 
 CLAIMS.update({
-    "C05": ("runtime monitoring + sanitizers: AddressSanitizer build of the whole corpus workload, Miri on corpus shards and the API driver, Source::read model, offline join of observation logs default vs forbid_unsafe",
-            "exactly sized heap blocks under ASan/Miri, read() model over all lengths 0..=40 and offsets, cross-build observation join, panics reported", "5 C05, 2.3"),
+    "C05": ("runtime monitoring + sanitizers: AddressSanitizer build of the whole corpus workload, Miri on corpus shards and the API driver, valgrind memcheck on the uninstrumented (thorough: optimised) corpus binaries, Source::read model, offline join of observation logs default vs forbid_unsafe",
+            "exactly sized heap blocks under ASan/Miri/memcheck, read() model over all lengths 0..=40 and offsets, cross-build observation join, panics reported", "5 C05, 2.3, 12.9"),
     "C06": ("runtime monitoring: offline join of observation logs (results, spans, callback invocations) tail-call vs state-machine builds + stack-address probe + long inputs",
             "same cases in both code generators must hash identically; stack probe spread must be 0 up to 10^6 skips / 4 MB tokens", "5 C06"),
     "C13": ("runtime monitoring: exactly-once / ordering monitor over callback invocation logs recorded in Extras + documented-table oracle replayed on the reference segmentation",
-            "every supported callback return type, labelled/inline, with bump, with custom error types and error callbacks, 4 configs", "5 C13"),
+            "every supported callback return type, labelled/inline, with bump, with custom error types and error callbacks, 4 configs; the same definitions as partial lexers (invocation log is a leading run of the one-shot log)", "5 C13, 12.8"),
     "C14": ("runtime monitoring: model-based monitor over random public-API histories (next/bump/clone/morph/spanned/accessors), also under Miri and ASan",
-            "accessors predicted after every step; clone race; heap-owning extras", "5 C14"),
+            "accessors predicted after every step; clone race; clone_from across modes; a live SpannedIter polled after None; heap-owning extras", "5 C14, 12.6"),
     "C15": ("runtime monitoring + sanitizers: bump outcome model and span-invariant assertion before slicing, debug/release x default/forbid_unsafe, Miri (--release) and ASan",
             "all n classes incl. wrap-around, use after caught panic", "5 C15"),
     "C20": ("runtime monitoring: online trace checker over the read-trace hook (monotone offsets, attempt start, read-count bound) on corpus and adversarial workloads",
@@ -48,12 +48,12 @@ CLAIMS.update({
 })
 
 CLAIMS.update({
-    "C16": ("runtime monitoring: output/graph hash comparison across threads and processes (fresh hash-map seeds), both code generators, plus byte comparison of repeated logos-cli runs",
-            "P processes x T threads per definition; CLI twice + --check", "5 C16"),
+    "C16": ("runtime monitoring: output/graph hash comparison across threads, processes (fresh hash-map seeds), hostile process environments and build profiles of the generator, both code generators, plus byte comparison of repeated logos-cli runs",
+            "P processes x T threads per definition + 2 hostile environments + release-built generator; CLI twice (second run hostile environment / release-built CLI) + --check", "5 C16, 12.6"),
     "C17": ("runtime monitoring: independent syn-based oracle over the real logos-cli binary's output + file-model monitor over write/check histories",
-            "stripped enum (token comparison), implementation == generate(), valid Rust, --format == rustfmt(plain), check status/mtime model", "5 C17"),
+            "stripped enum (token comparison), implementation == generate(input as rustc loads it), valid Rust, --format == rustfmt(plain), check status/mtime model over random and scripted histories, CRLF input files", "5 C17, 12.6, 12.10"),
     "C18": ("runtime monitoring: differential monitor over all permutations of named attribute arguments and dependency-respecting orders of #[logos(...)] items through the real generate()",
-            "acceptance and generated code / diagnostics must be identical to the canonical order", "5 C18"),
+            "acceptance must agree; for accepted definitions the generated code must be identical to the canonical order's (skip reorderings: same leaves, still implements its reference)", "5 C18, 12.6"),
     "C19": ("runtime monitoring: panic monitor (catch_unwind) and must-reject category oracle over generated, malformed and mutated inputs; the same through real stable rustc (diagnostics JSON); corpus must compile",
             "library entry point and real procedural macro on the stable toolchain", "5 C19"),
 })
